@@ -146,47 +146,10 @@ func writeObject(w io.Writer, value any) error {
 	case reflect.Map:
 		// fmt prints the entries of a map; Drops and pointers among them would show up as Go
 		// structs and memory addresses, so print the values they stand for
-		_, err := io.WriteString(w, fmt.Sprint(resolveForPrint(value, 0)))
+		_, err := io.WriteString(w, fmt.Sprint(values.DeepToLiquid(value)))
 		return err
 	default:
 		_, err := io.WriteString(w, fmt.Sprint(value))
 		return err
-	}
-}
-
-// resolveForPrint returns value with the Drops resolved and the pointers followed that are nested in
-// its maps, slices and arrays. Containers that hold neither are returned as they are.
-func resolveForPrint(value any, depth int) any {
-	value = values.ToLiquid(value)
-	if value == nil || depth > 32 {
-		return value
-	}
-	rv := reflect.ValueOf(value)
-	switch rv.Kind() {
-	case reflect.Ptr:
-		if rv.IsNil() || rv.Elem().Kind() == reflect.Struct {
-			return value
-		}
-		return resolveForPrint(rv.Elem().Interface(), depth+1)
-	case reflect.Map:
-		if k := rv.Type().Elem().Kind(); k != reflect.Interface && k != reflect.Ptr && k != reflect.Map && k != reflect.Slice && k != reflect.Array {
-			return value
-		}
-		out := make(map[any]any, rv.Len())
-		for _, key := range rv.MapKeys() {
-			out[key.Interface()] = resolveForPrint(rv.MapIndex(key).Interface(), depth+1)
-		}
-		return out
-	case reflect.Slice, reflect.Array:
-		if k := rv.Type().Elem().Kind(); k != reflect.Interface && k != reflect.Ptr && k != reflect.Map && k != reflect.Slice && k != reflect.Array {
-			return value
-		}
-		out := make([]any, rv.Len())
-		for i := range out {
-			out[i] = resolveForPrint(rv.Index(i).Interface(), depth+1)
-		}
-		return out
-	default:
-		return value
 	}
 }
